@@ -214,4 +214,24 @@ def run(ctx):
             r4.violate("C14|R4|%s|no-utf8-test" % cr.def_, "%s no longer tests from_utf8(..) for an error" % cr.def_, cr.file, cr.span["line"], cr.def_)
     chk.assumptions += ["the request line is the first line read by cursor_read; the tests named are the only gates of its Ok return"]
     chk.undecided = ["equality of re-parsed headers and body with the original (round trip); that every accepted method/version string is upper-cased consistently"]
+    # ---- R5 the reader reports what its sub-readers report
+    r5 = chk.rule("R5-reader-errors-are-reported", "in every function reachable from Request::parse that returns Result: the Err of a crate function it calls (established by is_err / match / ?) does not reach an Ok return on a feasible path (reviewed recoveries: tables/error_recovery.json)", floor=2)
+    from .parse_common import swallowed_errors
+    rec = {(e["fn"], e["callee"]): e for e in ctx.table("error_recovery")["recoveries"]}
+    for fnn in sorted(G.reachable([n for n in ("request::Request::parse",) if n in F.fns])):
+        fn0 = F.fns.get(fnn)
+        if fn0 is None or fn0.crate != "rws" or fn0.kind in ("Promoted", "Closure") or not (fn0.ret or "").startswith("std::result::Result<"):
+            continue
+        bad = {(c, bid) for c, line, bid in swallowed_errors(ctx, fn0)}
+        kk = 0
+        for bid, t in fn0.calls():
+            c = callee_name(t) or ""
+            g2 = F.fns.get(c)
+            if g2 is None or g2.crate != "rws" or not (g2.ret or "").startswith("std::result::Result<"):
+                continue
+            ok = (c, bid) not in bad or (fnn, c) in rec
+            r5.instance({"fn": fnn, "callee": c, "line": t["span"]["line"]} if not ok else None, ok)
+            if not ok:
+                kk += 1
+                r5.violate("C14|R5|%s|%s|%d" % (fnn, c, kk), "%s: the Err of %s (line %d) can reach an Ok return: what the sub-reader rejects is accepted by the caller" % (fnn, c, t["span"]["line"]), t["span"]["file"], t["span"]["line"], fnn)
     return chk.finish()
